@@ -67,6 +67,11 @@ CLAIMS["C20"] = dict(
    text="Decides that the modulus literal is the documented irreducible polynomial, that multiplication/inverse/power are reduced field operations at the reduction boundaries (including equal operands with the top bits set and index products of degree >= 128), that split() draws k-1 independent full-field coefficients, places the secret as constant term and evaluates at x = 1..n (both variants), that combine() interpolates over all supplied shares and refuses duplicates, and that no operator mutates an operand. Field laws and reconstruction for all values are not decided.",
    note="Oracle: vstat/spec/gf2.py (carry-less multiplication, polynomial reduction, Rabin irreducibility test, Lagrange interpolation).")
 
+CLAIMS["C09"] = dict(
+   technique="abstract interpretation of the Python block caches on a family of partitions with the native sink replaced by a recorder; event-order analysis of MAC vs cipher calls under output=; sibling agreement of the output= idiom; def-use rule for retained mutable inputs",
+   text="Decides structurally that the Python-level caches (GCM, CCM, OCB payload and associated data, CMAC) hand the native layer whole blocks whose concatenation plus the cache equals the input for every partition of a representative family (including empty segments while bytes are pending), that every AEAD mode feeds its MAC from the right buffer on the right side of the cipher call so that an aliased output cannot corrupt the MAC input, that the output= contract is identical in all wrappers, and that caller-owned mutable data kept across calls is copied. The C-side alias order of the mode loops is the E-C part. Equality of results for every partition is not decided.",
+   note="Partition family and expectations in vstat/props/C09.py; the per-mode table of which text is authenticated is from the mode specifications.")
+
 NOT_YET = {}
 
 ALL = ["C%02d" % i for i in range(1, 21)]
